@@ -593,21 +593,9 @@ class Check:
             hard = expected(failed)
             # ... and the raced entry's own row is optional too: the race may strike before its parent is listed
             # (e.g. when a link to it is canonicalised earlier in the walk)
-            # Below a directory whose listing broke off, the entries delivered before the error (in any stream on it: every stream
-            # fails at the same place) were seen by the walk: they and their subtrees are required; only the rest is optional.
-            delivered = {}
-            for l in res.log:
-                f_ = l.split(" ")
-                if len(f_) >= 5 and f_[1] == "readdir" and f_[3] == "->" and f_[4] not in ("end", "err"):
-                    dpath = unq(f_[2])
-                    delivered.setdefault("" if dpath == "." else dpath, set()).add(unq(f_[4]))
-            undelivered = set()
-            for n_ in world["nodes"]:
-                if "/" in n_["path"]:
-                    par_, nm_ = n_["path"].rsplit("/", 1)
-                    if par_ in mid and nm_ not in delivered.get(par_, set()):
-                        undelivered.add(n_["path"])
-            soft = expected(failed | mutated | undelivered, drop_self=mutated | undelivered)
+            # (rows inside a directory whose listing broke off half-way are optional as a whole: the statement requires the rows of
+            # entries OUTSIDE a directory that cannot be listed; keeping or discarding the part read before the error is both legitimate)
+            soft = expected(failed | mutated | mid, drop_self=mutated)
             got = observe(res)
             if shape == "count":
                 ok = got is not None and sum(soft.values()) <= got <= sum(hard.values())
